@@ -94,13 +94,14 @@ theorem remove_count (s : Slru κ ν) (k : κ) (o : Obj κ ν) :
     cases h2 : find k s.prot.items <;> (simp only [h2, heldAll, List.count_append] at *; omega)
 
 /-- `purge` releases every retained key and value -/
-theorem purge_count (s : Slru κ ν) (o : Obj κ ν) :
-    ∃ s' d, s.purge = .ok (s', d) ∧ s'.heldAll = [] ∧ s.heldAll.count o = d.count o := by
-  obtain ⟨p', e1, h1, hp0, hc1⟩ := RawLru.purge_count s.prob o
-  obtain ⟨q', e2, h2, hq0, hc2⟩ := RawLru.purge_count s.prot o
-  refine ⟨{ prob := p', prot := q' }, e1.drops ++ e2.drops, by simp only [Slru.purge, h1, h2], ?_, ?_⟩
+theorem purge_count (s : Slru κ ν) :
+    ∃ s' d, s.purge = .ok (s', d) ∧ s'.heldAll = [] ∧ ∀ o : Obj κ ν, s.heldAll.count o = d.count o := by
+  obtain ⟨p', e1, h1, hp0, hc1⟩ := RawLru.purge_count s.prob
+  obtain ⟨q', e2, h2, hq0, hc2⟩ := RawLru.purge_count s.prot
+  refine ⟨{ prob := p', prot := q' }, e1.drops ++ e2.drops, by simp only [Slru.purge, h1, h2], ?_, fun o => ?_⟩
   · simp only [heldAll, hp0, hq0, held_nil, List.append_nil]
-  · simp only [heldAll, List.count_append]; omega
+  · have := hc1 o; have := hc2 o
+    simp only [heldAll, List.count_append]; omega
 
 /-- dropping the cache releases exactly what is retained -/
 theorem drop_count (s : Slru κ ν) : s.dropCache = s.heldAll := rfl
